@@ -99,6 +99,45 @@ def c02_jobs(tier):
     return js + lemmas()
 
 
+# ---------------------------------------------------------------- C15
+P = K + "/service/period"
+
+
+def c15_jobs(tier):
+    js = [job("ZZ_C15_Hashes", P)]
+    windows = [0, 3, 4, 19, 20, 99] if tier == "quick" else list(range(100))
+    pat_windows = [0, 20, 99] if tier == "quick" else list(range(100))
+    for c in windows:
+        js.append(job("ZZ_C15_DateFacts", P, century=c, _split=65536))
+        js.append(job("ZZ_C15_Week", P, century=c, _split=65536))
+        js.append(job("ZZ_C15_MonthQuarterYear", P, century=c, _split=65536))
+    for c in pat_windows:
+        for n in [4, 7, 8]:
+            js.append(job("ZZ_C15_Pattern", P, n=n, century=c, _split=65536))
+    for n in [0, 1, 2, 3, 5, 6, 9]:
+        js.append(job("ZZ_C15_Pattern", P, n=n, century=20))
+    return js
+
+
+# ---------------------------------------------------------------- C17
+C = K + "/app/cli"
+
+
+def c17_jobs(tier):
+    js = []
+    days = [0, 2] if tier == "quick" else [0, 1, 2, 3, 4]
+    rounds = [0, 1, 3, 7] if tier == "quick" else list(range(8))
+    for d in days:
+        for r in rounds:
+            for sel in range(4):
+                for layout in range(2):
+                    js.append(job("ZZ_C17_Start", C, day=d, round=r, sel=sel, layout=layout))
+            for layout in range(5):
+                js.append(job("ZZ_C17_Stop", C, day=d, round=r, layout=layout))
+    js.append(job("ZZ_C02_EvalNow", S))
+    return js + lemmas()
+
+
 CHECKS = {
     "C16": {
         "jobs": c16_jobs,
@@ -126,6 +165,27 @@ CHECKS = {
         "outside": "longer texts; the no-op reconcile composition is covered by the C03 harness family",
         "stubs": [MODELS["utf8"], MODELS["bytealg"]],
         "assumptions": COMMON_ASSUME + ["the line/block layer is generic in the record parser: it is instantiated with a ParseOne that accepts every block"],
+    },
+    "C15": {
+        "jobs": c15_jobs,
+        "bounds": {
+            "quick": "every date of the century windows {00,03,04,19,20,99} (weekday, ISO week/week-year, quarter, +-1 day, week/month/quarter/year periods and predecessors); hash packing for all field values 0..9999/1..12/1..31/1..53; every pattern string of length 0..9 with the year in windows {00,20,99}",
+            "thorough": "all 100 century windows = every date 0000-01-01..9999-12-31, every pattern string with years 0000-9999",
+        },
+        "outside": "the first two weeks of year 0000 and the last week of 9999 for week periods, predecessors of the first month/quarter/year of 0000 (klog panics there: not representable, excluded like in C13's quantifier); pattern strings longer than 9 bytes",
+        "stubs": [MODELS["regexp"], MODELS["fmt"], MODELS["tabulate"], "math.Ceil / math.Log2 on concrete floats (int->float of a symbolic month is case-split)"],
+        "assumptions": COMMON_ASSUME + ["references: leap rule, month lengths, Sakamoto weekday, ISO-8601 week from ordinal day and weekday with the 53-week rule p(y)=4 or p(y-1)=3, civil day number - all closed forms in the harness",
+                                        "month and day are case-split by the engine (path dimension), the year stays symbolic within its century window; wide mul/div nodes over the year are tabulated exactly"],
+    },
+    "C17": {
+        "jobs": c17_jobs,
+        "bounds": {
+            "quick": "clock at every minute (hour, minute symbolic) of 2021-06-15 and 2021-12-31; roundings {none,5,12,60}; start x {default,--today,--yesterday,--tomorrow} x {records for yesterday/today/tomorrow, empty file}; stop x 5 layouts (open range today / yesterday only / yesterday with a record today / both / none) with every start time; total --now at every minute",
+            "thorough": "5 days (ordinary, month end, year end, leap day, day after), all 8 roundings",
+        },
+        "outside": "explicit --time / --date values (covered by C04's command model); clocks outside UTC; switch (= stop + start)",
+        "stubs": [MODELS["regexp"], MODELS["fmt"], MODELS["tabulate"], "app.Context: harness implementation (zzContext) holding the file as text and re-parsing it with the real parser, mirroring app.context.ReconcileFile"],
+        "assumptions": COMMON_ASSUME,
     },
     "C02": {
         "jobs": c02_jobs,
